@@ -168,6 +168,9 @@ class Printer(PrinterBase):
             # A literal without the f suffix has type double and
             # promotes the float arithmetic it is used in to double.
             s = f"{s}f" if ("." in s or "e" in s) else f"{s}.0f"
+        elif typ == "double" and isinstance(value, (int, numpy.integer)):
+            # an integer literal would be negated, divided, etc as an integer
+            s = f"{s}.0"
         elif s == "inf":
             s = f"std::numeric_limits<{typ}>::infinity()"
         elif s == "-inf":
